@@ -113,7 +113,9 @@ pub struct WorkerSeg {
 
 /// Runs `f`, converting a panic into `Err(message)`.
 pub fn catch<T>(f: impl FnOnce() -> T) -> Result<T, String> {
-    match std::panic::catch_unwind(std::panic::AssertUnwindSafe(f)) {
+    let r = std::panic::catch_unwind(std::panic::AssertUnwindSafe(f));
+    progress();
+    match r {
         Ok(v) => Ok(v),
         Err(p) => {
             let msg = if let Some(s) = p.downcast_ref::<&str>() {
@@ -151,4 +153,48 @@ pub fn install_panic_hook() {
         }
         LAST_PANIC_LOC.with(|l| *l.borrow_mut() = Some(loc));
     }));
+}
+
+
+// ------------------------------------------------------------------------------------------------
+// heartbeat (supervision only: nothing here feeds back into a run)
+// ------------------------------------------------------------------------------------------------
+
+struct Hb {
+    path: String,
+    index: u64,
+    seed: u64,
+    calls: u64,
+    last_write: std::time::Instant,
+}
+
+static HB: std::sync::Mutex<Option<Hb>> = std::sync::Mutex::new(None);
+
+/// A run is about to start: `<index> <seed> 0` goes to the worker's heartbeat file.
+pub fn heartbeat_start(path: &str, index: u64, seed: u64) {
+    if let Ok(mut f) = std::fs::File::create(path) {
+        use std::io::Write;
+        let _ = writeln!(f, "{} {} 0", index, seed);
+    }
+    if let Ok(mut g) = HB.lock() {
+        *g = Some(Hb { path: path.to_string(), index, seed, calls: 0, last_write: std::time::Instant::now() });
+    }
+}
+
+/// One more call into the engine has returned. The file is rewritten at most once a second
+/// (wall clock read for supervision only: the supervisor must tell "one call never returns"
+/// from "a run makes many slow calls"); no effect on anything the run computes.
+pub fn progress() {
+    if let Ok(mut g) = HB.lock() {
+        if let Some(h) = g.as_mut() {
+            h.calls += 1;
+            if h.calls % 16 == 0 && h.last_write.elapsed().as_millis() >= 1000 {
+                h.last_write = std::time::Instant::now();
+                if let Ok(mut f) = std::fs::File::create(&h.path) {
+                    use std::io::Write;
+                    let _ = writeln!(f, "{} {} {}", h.index, h.seed, h.calls);
+                }
+            }
+        }
+    }
 }
